@@ -1239,3 +1239,82 @@ Proof.
   exists b, k. split; [exact E|]. split; [|split; assumption].
   f_equal. destruct (sm_sync s0); [reflexivity|]. rewrite Ep, map_map. reflexivity.
 Qed.
+
+(* ------------------------------------------------------------------ which segments are played *)
+
+(* every played segment continues the one before (for some end instant of the predecessor), with the offset
+   seekAndMux computes *)
+Fixpoint chain_from (first : seg) (soff start : Z) (prev : seg) (vis : list (gseg * Z)) : Prop :=
+  match vis with
+  | [] => True
+  | (g, o) :: r =>
+      (exists e, can_concat prev e (g_seg g) = true) /\ o = seg_off first soff start g /\
+      chain_from first soff start (g_seg g) r
+  end.
+
+Lemma ev_rest_chain l : forall first soff start dur prev se evs vis,
+  ev_rest first soff start dur prev se l = Some (evs, vis) ->
+  chain_from first soff start prev vis /\ map fst vis = firstn (length vis) l.
+Proof.
+  induction l as [|g r IH]; intros first soff start dur prev se evs vis H.
+  - inversion H; subst. split; [exact I|reflexivity].
+  - cbn [ev_rest] in H. destruct (negb (can_concat prev se (g_seg g))) eqn:Ec.
+    + inversion H; subst. split; [exact I|reflexivity].
+    + destruct (ev_parts (seg_off first soff start g) dur (s_tracks first) (g_parts g) 0) as [[evs1 sd]|]; [|discriminate].
+      destruct (ev_rest first soff start dur (g_seg g) (g_start g + sd) r) as [[evs2 vis2]|] eqn:Er; [|discriminate].
+      inversion H; subst. destruct (IH _ _ _ _ _ _ _ _ Er) as (A & B). split.
+      * cbn [chain_from]. split; [exists se; apply negb_false_iff; exact Ec|]. split; [reflexivity|exact A].
+      * cbn [map fst length firstn]. f_equal. exact B.
+Qed.
+
+Theorem played_chain all start dur segs :
+  find_segments g_start all (Some start) (Some (start + dur)) = Some segs ->
+  played all start dur <> [] ->
+  exists g0 rest, played all start dur = (g0, g_start g0 - start) :: rest /\
+    chain_from (g_seg g0) (g_start g0 - start) start (g_seg g0) rest /\
+    map fst (played all start dur) = firstn (length (played all start dur)) segs.
+Proof.
+  intros Hf Hne. unfold played in *. rewrite Hf in *. unfold ev_all in *.
+  destruct segs as [|g0 rest0]; [congruence|].
+  destruct (ev_parts (g_start g0 - start) dur (s_tracks (g_seg g0)) (g_parts g0) 0) as [[evs1 sd]|]; [|congruence].
+  destruct (ev_rest (g_seg g0) (g_start g0 - start) start dur (g_seg g0) (g_start g0 + sd) rest0) as [[evs2 vis2]|] eqn:Er;
+    [|congruence].
+  destruct (ev_rest_chain _ _ _ _ _ _ _ _ _ Er) as (A & B).
+  exists g0, vis2. split; [reflexivity|]. split; [exact A|]. cbn [map fst length firstn]. f_equal. exact B.
+Qed.
+
+(* ------------------------------------------------------------------ the full-strength window statement fails *)
+
+Definition wit_seg : gseg :=
+  mkGseg (mkSeg 0 1600000000 None [(1, 1000, 1); (2, 1000, 2)])
+    [ [mkTraf 1 0 [mkSample 1 500 true 0];
+       mkTraf 2 0 [mkSample 2 400 true 0; mkSample 3 400 true 0; mkSample 4 400 true 0; mkSample 6 400 true 0]];
+      [mkTraf 1 500 [mkSample 5 500 true 0]] ].
+
+(* one segment, two tracks; track 2 reaches 0.9 s in the first part, sample 5 of track 1 (at 0.5 s) is in the second *)
+Theorem get_window_refuted :
+  exists all start dur ps g0 off rest id ts c x,
+    on_get all start dur = Ok ps /\ played all start dur = (g0, off) :: rest /\
+    NoDup (track_ids (s_tracks (g_seg g0))) /\
+    tracks_sorted dur (s_tracks (g_seg g0)) (played all start dur) /\
+    In (id, ts, c) (s_tracks (g_seg g0)) /\
+    In x (filter (in_win (go_to_mp4 dur ts)) (all_rows id ts (played all start dur))) /\
+    ~ In (strip (fst x), snd x) (srows (flat_track id ps)).
+Proof.
+  exists [wit_seg], 0, 900000000.
+  eexists. exists wit_seg, 0, [], 1, 1000, 1, (mkSample 5 500 true 0, 500).
+  split; [vm_compute; reflexivity|]. split; [vm_compute; reflexivity|].
+  split; [vm_compute; repeat constructor; simpl; intuition discriminate|].
+  split.
+  - intros id ts c Hin. simpl in Hin. destruct Hin as [E|[E|[]]]; inversion E; subst; vm_compute; intuition discriminate.
+  - split; [left; reflexivity|]. split; [vm_compute; right; left; reflexivity|].
+    vm_compute. intros [E|[]]. discriminate.
+Qed.
+
+(* the same recording with a window that cuts nothing: the hypotheses of get_window_partial are satisfiable *)
+Example get_window_example :
+  on_get [wit_seg] 0 450000000 = Ok [[mkO 1 0 [mkSample 1 500 true 0]; mkO 2 0 [mkSample 2 400 true 0; mkSample 3 400 true 0]]]
+  /\ played [wit_seg] 0 450000000 = [(wit_seg, 0)]
+  /\ no_cut 1 1000 450000000 (s_tracks (g_seg wit_seg)) (played [wit_seg] 0 450000000)
+  /\ no_cut 2 1000 450000000 (s_tracks (g_seg wit_seg)) (played [wit_seg] 0 450000000).
+Proof. vm_compute. repeat split. Qed.
